@@ -146,6 +146,12 @@ pub fn run_case(case: &Case, st: &mut Stats) -> CaseResult {
         args.push("-c".into());
         args.push(cpath.display().to_string());
         order_names = Some(ord);
+    } else if case.seps.first().map(|b| b & 1 == 1).unwrap_or(false) {
+        // a config file without an "order" key: the tool falls back to its linear order
+        let cpath = sc.file("config.json", "{}");
+        args.push("-c".into());
+        args.push(cpath.display().to_string());
+        st.bump("wmc.config_without_order");
     }
     let argv: Vec<&str> = args.iter().map(|s| s.as_str()).collect();
     let out = run_tool("weighted_model_count", &argv)?;
@@ -239,11 +245,22 @@ pub fn run_case(case: &Case, st: &mut Stats) -> CaseResult {
     // ---------------- bottomup_cnf_to_bdd ----------------
     if !case.cnf.clauses.is_empty() {
         let force = case.cnf_order_force && !case.cnf.has_empty_clause();
+        // header counts right or (a third of the time) too large; the final clause terminator is sometimes left out
+        let sb = |i: usize| case.seps.get(i).copied().unwrap_or(0);
+        let wrong_header = sb(1) % 3 == 0;
+        let header = if wrong_header {
+            ((case.cnf.num_vars().max(1) as u8).saturating_add(sb(2) % 3), (case.cnf.clauses.len() as u8).saturating_add(sb(3) % 3))
+        } else {
+            (case.cnf.num_vars().max(1) as u8, case.cnf.clauses.len() as u8)
+        };
+        let drop_last_zero = sb(0) & 2 != 0 && case.cnf.clauses.last().map(|c| !c.is_empty()).unwrap_or(false);
+        st.flag("cnf_to_bdd.header_counts_too_large", wrong_header && header != (case.cnf.num_vars().max(1) as u8, case.cnf.clauses.len() as u8));
+        st.flag("cnf_to_bdd.final_zero_missing", drop_last_zero);
         let dtext = dimacs_text(&DimacsCase {
             cnf: case.cnf.clone(),
-            header: (case.cnf.num_vars().max(1) as u8, case.cnf.clauses.len() as u8),
+            header,
             layout: case.seps.clone(),
-            drop_last_zero: false,
+            drop_last_zero,
         });
         let dpath = sc.file("input.cnf", &dtext);
         let dp = dpath.display().to_string();
@@ -318,7 +335,7 @@ pub fn run_case(case: &Case, st: &mut Stats) -> CaseResult {
 impl SubCheckT for Tools {
     type Case = Case;
     const NAME: &'static str = "tools";
-    const RULE: &'static str = "the three binaries built from /repo (feature cli, dev profile) run as subprocesses on generated files: weighted_model_count -f F -w W [-c CFG] in single-count mode with an s-expression formula (<=5 names), dyadic weights (non-normalised, or all listed pairs normalised) for a random subset of its names plus 0..2 names that occur only in the weights file, and no config or a full permutation of all names: printed unweighted count = number of models over all variables, printed weighted count = exact sum over those models of the weight products ((0,0) for names without weights), compared after parsing the two labelled stdout lines; bottomup_formula_to_bdd (linear / manual order) and bottomup_cnf_to_bdd (auto_minfill / auto_force; >=1 clause, no empty clause for FORCE): stdout JSON read by the harness's reader denotes the input formula. Non-trivial: >=3 variables, the formula's BDD skips a level on some path under the order used, and some weight pair with low+high != 1";
+    const RULE: &'static str = "the three binaries built from /repo (feature cli, dev profile) run as subprocesses on generated files: weighted_model_count -f F -w W [-c CFG] in single-count mode with an s-expression formula (<=5 names), dyadic weights (non-normalised, or all listed pairs normalised) for a random subset of its names plus 0..2 names that occur only in the weights file, and no config, a config without an order, or a full permutation of all names: printed unweighted count = number of models over all variables, printed weighted count = exact sum over those models of the weight products ((0,0) for names without weights), compared after parsing the two labelled stdout lines; bottomup_formula_to_bdd (linear / manual order) and bottomup_cnf_to_bdd (auto_minfill / auto_force; >=1 clause, no empty clause for FORCE; all CNF families of the other checks, header counts right or too large, final 0 sometimes missing): stdout JSON read by the harness's reader denotes the input formula. Non-trivial: >=3 variables, the formula's BDD skips a level on some path under the order used, and some weight pair with low+high != 1";
     fn cases(tier: Tier) -> u32 {
         tier.pick(400, 8000)
     }
@@ -333,7 +350,10 @@ impl SubCheckT for Tools {
                     prop_oneof![3 => Just(false), 2 => Just(true)],
                     proptest::collection::vec(("[a-z]{1,3}", 0u8..41, 0u8..41), 0..=2),
                     proptest::option::weighted(0.5, proptest::collection::vec(any::<u16>(), 8)),
-                    (1u8..=6).prop_flat_map(|n| clauses_strategy(n, 8, 0, 4)).prop_map(|clauses| CnfCase { clauses }),
+                    prop_oneof![
+                        2 => (1u8..=6).prop_flat_map(|n| clauses_strategy(n, 8, 0, 4)).prop_map(|clauses| CnfCase { clauses }).boxed(),
+                        1 => cnf_strategy(),
+                    ],
                     any::<bool>(),
                     proptest::option::weighted(0.5, proptest::collection::vec(any::<u16>(), 8)),
                 )
